@@ -69,10 +69,16 @@ class FanoutRunner:
         self.dir = envctl.scratch('fan')
         self.listener = ShardPages(self.dir)
         interpose.install(self.listener, self.dir)
-        self.cache = diskcache.FanoutCache(self.dir, shards=self.n, timeout=0.01,
-                                           eviction_policy=POLICY[cfg['policy']], cull_limit=cfg['cull'],
-                                           size_limit=cfg['limit'], statistics=cfg['stats'],
-                                           disk_min_file_size=cfg.get('min_file_size', 2 ** 15))
+        kw = dict(eviction_policy=POLICY[cfg['policy']], cull_limit=cfg['cull'], size_limit=cfg['limit'], statistics=cfg['stats'],
+                  disk_min_file_size=cfg.get('min_file_size', 2 ** 15))
+        if cfg.get('premade'):
+            # the shard directories are there already (made by a deployment, left by an interrupted start), empty; and the
+            # default total limit is not spelled out
+            for i in range(self.n):
+                os.makedirs(os.path.join(self.dir, '%03d' % i))
+            if cfg['limit'] == 2 ** 30:
+                del kw['size_limit']
+        self.cache = diskcache.FanoutCache(self.dir, shards=self.n, timeout=0.01, **kw)
         self.km = KeyMap()
         self.vm = ValMap(cfg.get('min_file_size', 2 ** 15))
         self.api = ApiAdapter(diskcache, self.km, self.vm, self.clock)
@@ -133,7 +139,9 @@ class FanoutRunner:
         elif busy:
             self.listener.hold(busy[0] % self.n, busy[1])
         try:
-            if name in ('pickle', 'reopen', 'copy'):
+            if name == 'limits':
+                ret = R('ints', [int(round(sh.size_limit * self.n / 1024.0)) for sh in self.cache._shards])
+            elif name in ('pickle', 'reopen', 'copy'):
                 # the same directory through another handle: it must address the same shards
                 import pickle as _p, copy as _c
                 try:
